@@ -322,9 +322,30 @@ def r8_5(ctx):
     c04.r4_3(ctx)
 
 
+def r8_6(ctx):
+    """the canonical rendering decides on ` (escaped)` with Escaper::has_unprintable and renders with Escaper::escaped_printable
+    of the same bytes; both must classify characters identically (R11.5) or the rendering re-parses to other contents"""
+    from . import c11
+    prog = ctx.prog
+    w = None
+    for b in prog.bodies:
+        if b.promoted is None and b.name == "to_expression_string" and "rule::Rule" in b.path and b.kind == "AssocFn":
+            w = b
+    if w is None:
+        raise AnchorError("Rule::to_expression_string not found")
+    o = Origins(w)
+    hu = [(bb, t) for bb, t in w.calls() if mname(t) == "Escaper::has_unprintable"]
+    ep = [(bb, t) for bb, t in w.calls() if mname(t) == "Escaper::escaped_printable"]
+    same = len(hu) == 1 and len(ep) == 1 and peel(o.operand(hu[0][1]["args"][1])).show() == peel(o.operand(ep[0][1]["args"][1])).show() \
+        and peel(o.operand(hu[0][1]["args"][0])).show() == peel(o.operand(ep[0][1]["args"][0])).show()
+    ctx.check(same, "marker-and-rendering-same-bytes", w.where(), "the ` (escaped)` decision and the rendering look at the same expression bytes with the same escaper")
+    c11.r11_5(ctx)
+
+
 def run(ctx):
     ctx.run_rule("R8.1", "extract, by cases (capture count x kind capture empty): an empty kind capture always means `equal` on every path (contradiction rule) [E-TABLE by case analysis]", r8_1, floor=10)
     ctx.run_rule("R8.2", "extract indexes captures[k] only with k < capture count on every case [E-TABLE]", r8_2, floor=5)
     ctx.run_rule("R8.3", "grammar template: ^ (.*?) (?: \\s \\( (names|)? ([*+?])? \\) )? $ with names from the registry via regex::escape [E-TABLE, parsed template]", r8_3, floor=8)
     ctx.run_rule("R8.4", "quantifier tables: reader (q -> optional, multiline) and writer (flags -> ` (q)` / `(kind q)`) are mutually inverse; fields not swapped [E-TABLE]", r8_4, floor=9)
+    ctx.run_rule("R8.6", "canonical rendering: ` (escaped)` decision (has_unprintable) and rendering (escaped_printable) agree on the character class [E-TABLE sibling agreement]", r8_6, floor=5)
     ctx.run_rule("R8.5", "every kind() literal is the first registered name of its maker (canonical rendering re-parses to the same rule) [E-TABLE]", r8_5, floor=10)
